@@ -11,7 +11,7 @@ from vc import sym
 from vc.sym import And, Or, Not, Implies
 from vc.vec import Vec
 from vc.contract import Contract, State, veq, seq, vsum, snapshot, frame_clauses
-from contracts.common import make_level, cls_of, lower, strictly_lower0, cp, ftot
+from contracts.common import make_level, cls_of, lower, strictly_lower0, cp, ftot, plant_earlier_end_value, earlier_end_value_clause
 
 SW = 'pySDC/implementations/sweeper_classes/'
 
@@ -180,7 +180,8 @@ class EndPoint(_SweepBase):
     def build(self, inst, mk):
         L = self.mk_level(inst, mk)
         L.uend = mk.vec('L.uend_old')
-        return State(L=L, M=inst['M'], call=L.sweep.compute_end_point, inst=inst)
+        # history: the end value of an earlier call is still there and somebody (a logging hook, the caller) holds on to that object
+        return State(L=L, M=inst['M'], call=L.sweep.compute_end_point, inst=inst, uend_before=L.uend, uend_before_copy=cp(L.uend))
 
     def post(self, st, old, result, exc):
         L, M, sw = st.L, st.M, st.L.sweep
@@ -197,6 +198,7 @@ class EndPoint(_SweepBase):
                 exp += st.old_tau[M - 1]
             yield 'uend:quadrature', veq(L.uend, exp)
         yield 'uend:new_object', all(L.uend is not u for u in L.u) and all(L.uend is not t for t in L.tau)
+        yield 'uend:earlier_end_value_object_neither_reused_nor_modified', L.uend is not st.uend_before and bool(veq(st.uend_before, st.uend_before_copy)) is True
         yield from frame_clauses(old, snapshot({'L': L}), frame=['L.uend'])
 
     def canary(self, st, old, result, exc):
@@ -517,7 +519,7 @@ class VerletEndPoint(_VerletBase):
 
     def build(self, inst, mk):
         L = self.mk_level(inst, mk)
-        return State(L=L, M=inst['M'], call=L.sweep.compute_end_point, inst=inst)
+        return plant_earlier_end_value(State(L=L, M=inst['M'], call=L.sweep.compute_end_point, inst=inst), L, cp(L.u[inst['M']]))
 
     def post(self, st, old, result, exc):
         L, M, sw = st.L, st.M, st.L.sweep
@@ -536,6 +538,7 @@ class VerletEndPoint(_VerletBase):
             yield 'uend:quadrature_position', veq(L.uend.pos, pos)
             yield 'uend:quadrature_velocity', veq(L.uend.vel, vel)
         yield 'uend:new_object', all(L.uend is not u for u in L.u)
+        yield earlier_end_value_clause(st, L)
         yield 'uend:masses_and_charges_kept', L.uend.m == 'mass' and L.uend.q == 'charge'
         yield from frame_clauses(old, snapshot({'L': L}), frame=['L.uend'])
 
@@ -686,7 +689,7 @@ class RKEndPoint(_RKBase):
         st = State(L=L, M=M, inst=inst, u0=cp(L.u[0]), call=L.sweep.compute_end_point)
         st.old_u = [cp(u) for u in L.u]
         st.old_f = [cp(f) for f in L.f]
-        return st
+        return plant_earlier_end_value(st, L, mk.vec('L.uend_old'))
 
     def post(self, st, old, result, exc):
         L, M, sw, inst = st.L, st.M, st.L.sweep, st.inst
@@ -694,6 +697,7 @@ class RKEndPoint(_RKBase):
         yield 'returns_normally', exc is None
         if exc is not None:
             return
+        yield earlier_end_value_clause(st, L)
         if inst.get('fresh'):
             yield 'no_stages_yet:end_value_is_u0', veq(L.uend, st.u0) and L.uend is not L.u[0]
             return
